@@ -684,6 +684,21 @@ impl<'a> PGen<'a> {
                 emit!(self, r4(O::SUPI, A, HEAP, B, self.g.below(16) as u8));
             }
             12 => emit!(self, r2(O::SPLD, d, A)),
+            13 if self.g.bool() => {
+                // two dynamic reads back to back with no ALU instruction in between: whatever the
+                // first one left in $err / $of is still there when the second one runs
+                let k2 = self.g.usize_below(NK);
+                self.addr_of_key(B, k2);
+                emit!(self, ri12(O::ADDI, D, HEAP, 64));
+                let d2 = self.nreg();
+                for (key, buf, dd) in [(A, HEAP, d), (B, D, d2)] {
+                    match self.g.below(3) {
+                        0 => emit!(self, r4(O::SRDI, buf, key, ZERO, self.g.below(24) as u8)),
+                        1 => emit!(self, r4(O::SRDD, buf, key, ZERO, ONE)),
+                        _ => emit!(self, r2(O::SPLD, dd, key)),
+                    }
+                }
+            }
             13 => {
                 // vary the bytes that get written
                 emit!(self, ri12(O::SW, HEAP, self.sreg(), self.g.below(8) as u32));
